@@ -271,6 +271,17 @@ def run(ctx, replay=None):
             t['steps'] += blk
             t['steps'].append({'a': 'Commit', 'args': [], 'post': None})
         traces.append(t)
+    # 5d. gas handed back beyond what was bought (2300 stipend of every value-bearing call): creation branch, every
+    #     init-code variant, and the message-call branch through the deployed contract
+    t = {'id': 'stipend-create-and-call', 'cfg': {'accts': [1, 2], 'keys': ['k1'], 'maxn': 2, 'mode': 'model'}, 'init': None, 'steps': []}
+    for blk in ([(tx('create', 1, 0), 'valid', 0), (tx('createcalls', 2, 0), 'valid', 0), (tx('createcalls', 2, 0), 'invalid', 0)],
+                [(tx('createcalls', 2, 1), 'valid', 1), (tx('valuecalls', 1, 1), 'valid', 0), (tx('createcalls', 1, 2), 'valid', 2)],
+                [(tx('createcalls', 2, 2), 'valid', 3), (tx('valuecalls', 2, 3), 'valid', 0), (tx('xfer', 1, 3), 'valid', 0)]):
+        t['steps'].append({'a': 'Begin', 'args': [], 'post': None})
+        for a, r, v in blk:
+            t['steps'].append({'a': 'ExecTx', 'args': [a, r, v], 'post': None})
+        t['steps'].append({'a': 'Commit', 'args': [], 'post': None})
+    traces.append(t)
     t = {'id': 'failed-call-replay', 'cfg': {'accts': [1, 2], 'keys': ['k1'], 'maxn': 2, 'mode': 'model'}, 'init': None, 'steps': []}
     for blk in ([(tx('create', 1, 0), 'valid'), (tx('revert', 2, 0), 'valid'), (tx('revert', 2, 0), 'invalid')],
                 [(tx('revert', 2, 0), 'invalid'), (tx('oog', 2, 1), 'valid'), (tx('oog', 2, 1), 'invalid'), (tx('admshort', 1, 1), 'valid')],
